@@ -29,8 +29,9 @@ SiteCases ==
               sup \in BOOLEAN} :
            s \in {x \in SiteIds : SiteTarget[x] \in HelperNs}}
 ChainKinds == {"GROUP", "FUNCTION", "UNIT"}
-ChainCases == {[fam |-> "chain", kind |-> k, len |-> n, cyc |-> cy, leaf |-> lf] :
-                  k \in ChainKinds, n \in 1..3, cy \in BOOLEAN, lf \in {"member", "empty", "referenced"}}
+\* rev: the chain elements appear in the file in reverse order (referenced before referrer)
+ChainCases == {[fam |-> "chain", kind |-> k, len |-> n, cyc |-> cy, leaf |-> lf, rev |-> rv] :
+                  k \in ChainKinds, n \in 1..5, cy \in BOOLEAN, lf \in {"member", "empty", "referenced"}, rv \in BOOLEAN}
 MemberCases == {[fam |-> "member", gk |-> gk, mk |-> mk] :
                   gk \in {"GROUP", "FUNCTION"}, mk \in {"AXIS_PTS", "BLOB", "CHARACTERISTIC", "INSTANCE", "MEASUREMENT"}}
 
@@ -38,7 +39,7 @@ ChainSite(k) == CASE k = "GROUP" -> "GROUP/SUB_GROUP.identifier_list"
                   [] k = "FUNCTION" -> "FUNCTION/SUB_FUNCTION.identifier_list"
                   [] OTHER -> "UNIT/REF_UNIT.unit"
 MemberSite(k) == IF k = "GROUP" THEN "GROUP/REF_CHARACTERISTIC.identifier_list" ELSE "FUNCTION/REF_CHARACTERISTIC.identifier_list"
-NameI(i) == CASE i = 1 -> "h1" [] i = 2 -> "h2" [] OTHER -> "h3"
+NameI(i) == CASE i = 1 -> "h1" [] i = 2 -> "h2" [] i = 3 -> "h3" [] i = 4 -> "h4" [] OTHER -> "h5"
 
 ModuleOf(x) ==
     IF x.fam = "site" THEN
@@ -56,7 +57,8 @@ ModuleOf(x) ==
         LET s == ChainSite(x.kind)
             link(i) == IF i < x.len THEN <<<<s, <<NameI(i + 1)>>>>>> ELSE IF x.cyc THEN <<<<s, <<"h1">>>>>> ELSE <<>>
             leafRefs == IF x.leaf = "member" /\ x.kind # "UNIT" THEN <<<<MemberSite(x.kind), <<"c0">>>>>> ELSE <<>>
-            chain == [i \in 1..x.len |-> El(x.kind, NameI(i), 20 + i, link(i) \o (IF i = x.len THEN leafRefs ELSE <<>>))]
+            fwd == [i \in 1..x.len |-> El(x.kind, NameI(i), 20 + i, link(i) \o (IF i = x.len THEN leafRefs ELSE <<>>))]
+            chain == IF x.rev THEN [i \in 1..x.len |-> fwd[x.len + 1 - i]] ELSE fwd
             refd == IF x.leaf = "referenced"
                     THEN IF x.kind = "GROUP" THEN <<El("USER_RIGHTS", "user1", 40, <<<<"USER_RIGHTS/REF_GROUP.identifier_list", <<NameI(x.len)>>>>>>)>>
                          ELSE IF x.kind = "FUNCTION" THEN <<El("MEASUREMENT", "m0", 50, <<<<"MEASUREMENT/FUNCTION_LIST.name_list", <<NameI(x.len)>>>>>>)>>
